@@ -211,6 +211,17 @@ class Gen:
         if what == 'extend-top-yc':
             m.files['']['yc'].choices = ['a', 'b', 'c', 'd']
             return {'edit': 'extend', 'sub': '', 'name': 'yc', 'added': 'd'}
+        if what == 'new-defaults-s-i':
+            m.files['']['s'].default = 'snew'
+            m.files['']['i'].default = '77'
+            return {'edit': 'change-default', 'sub': '', 'name': 's,i', 'default': 'snew,77'}
+        if what == 'restrict-tags':
+            m.files['']['tags'].choices = ['k1', 'k2']
+            m.files['']['tags'].default = 'k1'
+            return {'edit': 'add-choices', 'sub': '', 'name': 'tags', 'choices': ['k1', 'k2'], 'default': 'k1'}
+        if what == 'unrestrict-arr':
+            m.files['']['arr'].choices = None
+            return {'edit': 'remove-choices', 'sub': '', 'name': 'arr'}
         if what == 'grow-top':
             self.__dict__['directed_snap'] = copy.deepcopy(m.files[''])
             m.files['']['extra'] = L.Spec('extra', 'string', 'dflt')
@@ -267,8 +278,23 @@ class Gen:
             if not f and r.random() < 0.5:
                 m.absent.add(sub)      # type: ignore  # the file is deleted instead of emptied
             return {'edit': 'remove-all', 'sub': sub, 'name': ','.join(names) or '-'}
-        for _ in range(10):
+        suits = {
+            'shrink': lambda sp: sp.kind in ('combo', 'array') and sp.choices is not None and len(sp.choices) > 1,
+            'extend': lambda sp: sp.kind in ('combo', 'array') and sp.choices is not None,
+            'range': lambda sp: sp.kind == 'integer',
+            'add-choices': lambda sp: sp.kind == 'array' and sp.choices is None,
+            'remove-choices': lambda sp: sp.kind == 'array' and sp.choices is not None,
+        }
+        for attempt in range(10):
             kind = r.choice(kinds)
+            forced = self.__dict__.pop('force_kind', None) if attempt == 0 else None
+            if forced in kinds:
+                # stratification: every kind of edit is the first edit of some history (see main)
+                kind = forced
+                if kind in suits and not any(suits[kind](sp) for n, sp in f.items() if n not in ('y', 'yc', 'use_late')):
+                    other = 'sub' if sub == '' else ''
+                    if any(suits[kind](sp) for sp in m.files[other].values()):
+                        sub, f = other, m.files[other]
             if kind == 'add':
                 name = self.fresh('n')
                 k = r.choice(['string', 'boolean', 'integer', 'combo'])
@@ -276,7 +302,7 @@ class Gen:
                         'integer': L.Spec(name, 'integer', '7', min=0, max=20), 'combo': L.Spec(name, 'combo', 'm', choices=['l', 'm', 'n'])}[k]
                 f[name] = spec
                 return {'edit': 'add', 'sub': sub, 'name': name, 'kind': k}
-            cands = [n for n in f if n not in ('y', 'yc', 'use_late')]
+            cands = [n for n in f if n not in ('y', 'yc', 'use_late') and (kind not in suits or suits[kind](f[n]))]
             if not cands:
                 continue
             name = r.choice(cands)
@@ -417,8 +443,12 @@ def monitors(rec: T.Callable[[dict], None]) -> None:
     atexit.register(lambda: rec({'paths': counts}))
 
 
-def run_history(job: T.Tuple[int, int, str, T.Optional[T.List[dict]]]) -> dict:
-    seed, nsteps, root, replay_steps = job
+FORCE_KINDS = ['shrink', 'extend', 'range', 'add-choices', 'remove-choices', 'change-default', 'remove', 'add']
+
+
+def run_history(job: T.Tuple[T.Any, ...]) -> dict:
+    seed, nsteps, root, replay_steps = job[:4]
+    force_first_edit: T.Optional[str] = job[4] if len(job) > 4 else None
     rng = random.Random(seed)
     gen = Gen(rng, nsteps)
     top, sub = initial_files()
@@ -473,6 +503,10 @@ def run_history(job: T.Tuple[int, int, str, T.Optional[T.List[dict]]]) -> dict:
                 kind = 'restore-and-wipe'
         elif forced is not None:
             kind = forced['kind']
+        elif force_first_edit is not None and not any(x['step'] == 'edit' for x in res['steps']):
+            # the first thing that happens to the configured directory is an edit of this kind
+            kind = 'edit'
+            gen.force_kind = force_first_edit     # type: ignore
         elif r < 0.22:
             kind = 'edit'
         elif r < 0.50:
@@ -512,6 +546,10 @@ def run_history(job: T.Tuple[int, int, str, T.Optional[T.List[dict]]]) -> dict:
             expect_ok = m.reconfigure(fa, False)
             argv = ['setup', '--reconfigure', b, src] + flags(fa)
             step = {'step': 'reconfigure', 'assign': fa, 'inject_failure': False}
+        elif kind == 'wipe' and forced is not None:
+            expect_ok = m.wipe(False, fa)
+            argv = ['setup', '--wipe', b, src] + flags(fa)
+            step = {'step': 'wipe', 'inject_failure': False, 'restored': False, 'assign': fa}
         elif kind == 'setup':
             assign = gen.assignment(m, rng.randint(0, 4), 0.12, 0.05)
             gen.late_extra(m, 'setup', assign, r2)
@@ -703,6 +741,16 @@ LITERAL_SCRIPTS = [
      [(['setup', '@B', '@S', '-Dbuildtype=debugoptimized', '-Doptimization=s'], {'optimization': 's', 'debug': 'true'}),
       (['setup', '--reconfigure', '@B', '@S'], {'optimization': 's', 'debug': 'true'}),
       (['setup', '--wipe', '@B', '@S'], {'optimization': 's', 'debug': 'true'})]),
+    # values that come from a machine file are part of what --wipe re-derives (msetup saves and restores the machine files
+    # recorded in cmd_line.txt); a later command line value beats them and survives the next wipe as well
+    ('machine-file-values-survive-reconfigure-and-wipe',
+     [(['setup', '@B', '@S', '--native-file', '@S/nf.ini', '-Db=true'], {'s': 'from-nf', 'i': '42', 'warning_level': '3', 'b': 'true', 'c': 'a'}),
+      (['setup', '--reconfigure', '@B', '@S'], {'s': 'from-nf', 'i': '42', 'warning_level': '3', 'b': 'true'}),
+      (['setup', '--wipe', '@B', '@S'], {'s': 'from-nf', 'i': '42', 'warning_level': '3', 'b': 'true'}),
+      (['configure', '@B', '-Ds=from-cmd', '-Dwarning_level=0'], {'s': 'from-cmd', 'i': '42', 'warning_level': '0', 'b': 'true'}),
+      (['setup', '--wipe', '@B', '@S'], {'s': 'from-cmd', 'i': '42', 'warning_level': '0', 'b': 'true'}),
+      (['setup', '--reconfigure', '@B', '@S', '-Di=7'], {'s': 'from-cmd', 'i': '7', 'warning_level': '0', 'b': 'true'}),
+      (['setup', '--wipe', '@B', '@S'], {'s': 'from-cmd', 'i': '7', 'warning_level': '0', 'b': 'true'})]),
     ('configure-then-wipe-keeps-empty-values',
      [(['setup', '@B', '@S', '-Ds=first', '-Dtags=b,c'], {'s': 'first', 'tags': 'b,c'}),
       (['configure', '@B', '-Ds=', '-Dtags='], {'s': '', 'tags': ''}),
@@ -718,6 +766,7 @@ def run_literal(job: T.Tuple[int, str]) -> dict:
     src, b = os.path.join(base, 'src'), os.path.join(base, 'b')
     top, sub = initial_files()
     runner.write_tree(src, render_project(L.Model(top, sub)))
+    runner.write_tree(src, {'nf.ini': "[project options]\ns = 'from-nf'\ni = 42\n\n[built-in options]\nwarning_level = '3'\n"})
     res: T.Dict[str, T.Any] = {'script': name, 'problems': [], 'checked': 0}
     for i, (argv, expect) in enumerate(steps):
         rr = runner.meson([a.replace('@B', b).replace('@S', src) for a in argv], cwd=src)
@@ -753,7 +802,8 @@ def main() -> int:
         print('replay: no problem observed')
         return 0
     nh, ns = (96, 10) if chk.tier == 'quick' else (1200, 16)
-    jobs = [(chk.seed * 100003 + i, ns, root, None) for i in range(nh)]
+    # stratified: the first 3 x 8 histories each start (after setup) with one given kind of option-file edit
+    jobs = [(chk.seed * 100003 + i, ns, root, None, FORCE_KINDS[i % len(FORCE_KINDS)] if i < 3 * len(FORCE_KINDS) else None) for i in range(nh)]
     directed = [
         # parent of a yielding option disappears: the subproject option must fall back to its own value
         [{'kind': 'setup', 'assign': {'y': 'pv'}}, {'kind': 'edit', 'what': 'remove-parent-y'}, {'kind': 'reconfigure'}],
@@ -774,6 +824,17 @@ def main() -> int:
          {'kind': 'reconfigure'}],
         [{'kind': 'setup', 'assign': {}}, {'kind': 'edit', 'what': 'grow-top'}, {'kind': 'configure', 'assign': {'extra': 'seen'}},
          {'kind': 'edit', 'what': 'revert-top'}, {'kind': 'configure', 'assign': {'b': 'true'}}, {'kind': 'configure', 'assign': {'i': '9'}}],
+    ]
+    directed += [
+        # values equal to the ones in effect are still "the last value the user gave": recorded, so a --wipe after the
+        # defaults changed keeps them
+        [{'kind': 'setup', 'assign': {}}, {'kind': 'configure', 'assign': {'s': 's0', 'i': '5'}}, {'kind': 'edit', 'what': 'new-defaults-s-i'},
+         {'kind': 'reconfigure'}, {'kind': 'wipe'}, {'kind': 'reconfigure'}],
+        # an array option gains a choices list that excludes its value / loses its choices list
+        [{'kind': 'setup', 'assign': {'tags': 'e1,e2'}}, {'kind': 'edit', 'what': 'restrict-tags'}, {'kind': 'reconfigure'},
+         {'kind': 'configure', 'assign': {'tags': 'e1'}}, {'kind': 'configure', 'assign': {'tags': 'k2'}}],
+        [{'kind': 'setup', 'assign': {'arr': 'y'}}, {'kind': 'edit', 'what': 'unrestrict-arr'}, {'kind': 'configure', 'assign': {'arr': 'anything,goes'}},
+         {'kind': 'reconfigure'}],
     ]
     jobs += [(900000 + i, len(sc), root, sc) for i, sc in enumerate(directed)]
     results = common.pmap(run_history, jobs, chk.jobs, timeout=3000)
